@@ -173,6 +173,9 @@ static void case_api(uint64_t idx) {
         const dtype_t *t = &DTYPES[rng_below(&r, 15)];
         struct jls_signal_def_s d; memset(&d, 0, sizeof(d));
         d.signal_id = 3; d.source_id = 0; d.signal_type = JLS_SIGNAL_TYPE_FSR; d.data_type = t->code; d.sample_rate = 1000;
+        /* a data type the format does not define (zero width, odd widths, unknown base type): rejected, whatever the size fields say */
+        int badtype = k == 11 || rng_chance(&r, 1, 12);
+        if (badtype) { static const uint32_t bad[] = {0, 0x0001, 0x0003, 0x0004, 0x00080001, 0x0301, 0x0701, 0x0c03, 0x1004, 0x8004, 0x2002, 0x0800, 0xffffffffu}; d.data_type = bad[rng_below(&r, 13)]; }
         uint32_t v[4];
         for (int q = 0; q < 4; ++q) v[q] = rng_chance(&r, 1, 2) ? GRID[rng_below(&r, NGRID)] : (rng_chance(&r, 1, 3) ? boundary_value(&r) : (uint32_t) rng_below(&r, 40000));
         /* keep block buffers allocatable */
@@ -194,6 +197,11 @@ static void case_api(uint64_t idx) {
         v_api("jls_wr_close");
         jls_wr_close(wr);
         v_api("");
+        if (badtype) {
+            v_count("C16", "api_undefined_data_types", 1);
+            if (!rc) { snprintf(key, sizeof(key), "api|undefined-data-type-accepted"); v_violation("C16", key, NULL, "data type 0x%08x was accepted", d.data_type); }
+            unlink(p1); continue;
+        }
         if (rc) { unlink(p1); continue; }
         struct jls_signal_def_s g1, g2; memset(&g1, 0, sizeof(g1)); memset(&g2, 0, sizeof(g2));
         if (jls_rd_open(&rd, p1) || jls_rd_signal(rd, 3, &g1)) { v_violation("C16", "api|cannot-read-back", NULL, "accepted definition cannot be read back"); if (rd) jls_rd_close(rd); unlink(p1); continue; }
